@@ -3,6 +3,7 @@ package sym
 import (
 	"fmt"
 	"go/types"
+	"strings"
 
 	"golang.org/x/tools/go/ssa"
 )
@@ -20,6 +21,30 @@ type goroutine struct {
 	kill   bool
 	fn     Value
 	args   []Value
+	why    string // what the goroutine last yielded for (diagnostics)
+	at     *frame
+}
+
+// blockedSummary names, for a deadlock report, what every live goroutine waits for.
+func (w *Worker) blockedSummary() string {
+	var sb strings.Builder
+	for _, g := range w.gs {
+		if g.done {
+			continue
+		}
+		fmt.Fprintf(&sb, " [g%d %s", g.id, g.why)
+		n := 0
+		for fr := g.at; fr != nil && n < 3; fr = fr.caller {
+			if fr.cur != nil {
+				fmt.Fprintf(&sb, " <%s@%s", fr.fn.Name(), w.posStr(fr.cur.Pos()))
+			} else {
+				fmt.Fprintf(&sb, " <%s", fr.fn.Name())
+			}
+			n++
+		}
+		sb.WriteString("]")
+	}
+	return sb.String()
 }
 
 type killed struct{}
@@ -112,6 +137,7 @@ func (w *Worker) yield(why string) {
 		w.pending = nil
 		panic(p)
 	}
+	cur.why, cur.at = why, w.curFrame
 	live := 0
 	for _, g := range w.gs {
 		if !g.done {
@@ -269,8 +295,13 @@ func (w *Worker) chanRecv(fr *frame, instr ssa.Instruction, c *Chan, commaOk boo
 	if c == nil {
 		w.blockForever("receive from nil channel at " + fr.site(instr))
 	}
-	for !c.canRecv() {
-		w.yield("receive at " + fr.site(instr))
+	if !c.canRecv() {
+		c.recvWait++
+		w.progress() // a waiting receiver enables a select-send elsewhere
+		for !c.canRecv() {
+			w.yield("receive at " + fr.site(instr))
+		}
+		c.recvWait--
 	}
 	v, ok := c.takeRecv()
 	w.progress()
@@ -310,7 +341,8 @@ func (w *Worker) selectOp(fr *frame, instr *ssa.Select) Value {
 				if c.Closed {
 					fr.rtPanic(instr, "send on closed channel")
 				}
-				if len(c.Q) < c.Cap || (c.Cap == 0 && !c.pendingSend) {
+				// an unbuffered send is ready only when a receiver is waiting (rendezvous)
+				if len(c.Q) < c.Cap || (c.Cap == 0 && !c.pendingSend && c.recvWait > 0) {
 					chosen = i
 					break
 				}
@@ -352,8 +384,21 @@ func (w *Worker) selectOp(fr *frame, instr *ssa.Select) Value {
 			}
 			return r
 		}
-		// a blocking select with an unbuffered send case: offer the value
+		// block: this goroutine now waits to receive on every receive case
+		for _, st := range instr.States {
+			if c, _ := fr.get(st.Chan).(*Chan); c != nil && st.Dir == types.RecvOnly {
+				if c.recvWait == 0 {
+					w.progress() // a waiting receiver enables a select-send elsewhere
+				}
+				c.recvWait++
+			}
+		}
 		w.yield(fmt.Sprintf("select at %s", fr.site(instr)))
+		for _, st := range instr.States {
+			if c, _ := fr.get(st.Chan).(*Chan); c != nil && st.Dir == types.RecvOnly {
+				c.recvWait--
+			}
+		}
 	}
 }
 
